@@ -2,7 +2,7 @@
    literal readers and printers used by the generated cases_*.v files of the correspondence. *)
 From Coq Require Import QArith Qcanon ZArith.
 From mathcomp Require Import all_ssreflect all_algebra.
-From GT Require Import QcField QcOrder Tensor DetExec LogDom Obj Factor Measure.
+From GT Require Import QcField QcOrder Tensor DetExec LogDom Obj Factor Measure Pdf Cond.
 Set Implicit Arguments.
 Unset Strict Implicit.
 Unset Printing Implicit Defensive.
@@ -64,3 +64,15 @@ Definition obs_ucache (u : measureQ) : seq Z :=
   ++ (if uhldL u is Some h then dL2 R h else [::])
   ++ (if umu u is Some m then dB2 R D m else [::])
   ++ (if ulnZ u is Some z then dL R z else [::]).
+
+(* conditionals *)
+Notation condQ := (cond LQ).
+Definition lxs (l : seq (seq Qc)) : seq (vec QF) := [seq lv x | x <- l].
+Definition obs_cond (c : condQ) : seq Z :=
+  let R := cR c in
+  dnat R ++ dnat (cDy c) ++ dnat (cDx c) ++ dB3 R (cDy c) (cDx c) (cM c) ++ dB2 R (cDy c) (cb c)
+  ++ dB3 R (cDy c) (cDy c) (cSig c) ++ dB3 R (cDy c) (cDy c) (cLam c) ++ dL2 R (chS c).
+(* everything observable of a density / measure: evaluate_ln at points, core, caches *)
+Definition obs_all (u : measureQ) (xs : seq (seq Qc)) : seq Z :=
+  obs_ueval u xs ++ obs_ucore u ++ obs_ucache u.
+Definition obs_fall (f : factorQ) (xs : seq (seq Qc)) : seq Z := obs_feval f xs ++ obs_fcore f.
